@@ -118,19 +118,19 @@ theorem post_of_inv {i : Nat} {st : State U M} (h1 : 1 ≤ i) (hi : i ≤ maxHop
     exact ⟨inv.err, fun _ => stuck⟩
 
 /-- The five ways one turn of the loop can end. -/
-theorem body_cases {i : Nat} {st : State U M} (inv : Inv step get i st) (h1 : 1 ≤ i) :
-    let r := body step ext get maxHops i st
-    (r = (st, false) ∧ Stuck step ext st.hops) ∨
+theorem body_cases {i : Nat} {st : State U M} (inv : Inv step get i st) :
+    (body step ext get maxHops i st = (st, false) ∧ Stuck step ext st.hops) ∨
     (∃ hop : Hop U M, Link step get ⟨st.url, 0, st.method⟩ hop ∧
-      r.1.hops = st.hops ++ [hop] ∧ r.1.url = hop.url ∧ r.1.method = hop.method ∧
-      (((hop.url, hop.method) ∈ keys st.hops ∧ r.2 = false ∧ r.1.error = some Err.loop) ∨
-       ((hop.url, hop.method) ∉ keys st.hops ∧ ext hop.url = true ∧ r.2 = false ∧
-          r.1.error = (if 3 ≤ i + 1 then some Err.atLeastOneHop else none)) ∨
-       ((hop.url, hop.method) ∉ keys st.hops ∧ ext hop.url = false ∧ maxHops ≤ i ∧ r.2 = false ∧
-          r.1.error = some Err.tooManyHops) ∨
-       ((hop.url, hop.method) ∉ keys st.hops ∧ ext hop.url = false ∧ i < maxHops ∧ r.2 = true ∧
-          r.1.error = (if 3 ≤ i + 1 then some Err.atLeastOneHop else none)))) := by
-  intro r
+      (((hop.url, hop.method) ∈ keys st.hops ∧
+          body step ext get maxHops i st = (st.push hop (some Err.loop), false)) ∨
+       ((hop.url, hop.method) ∉ keys st.hops ∧ ext hop.url = true ∧
+          body step ext get maxHops i st =
+            (st.push hop (if 3 ≤ i + 1 then some Err.atLeastOneHop else none), false)) ∨
+       ((hop.url, hop.method) ∉ keys st.hops ∧ ext hop.url = false ∧ maxHops ≤ i ∧
+          body step ext get maxHops i st = (st.push hop (some Err.tooManyHops), false)) ∨
+       ((hop.url, hop.method) ∉ keys st.hops ∧ ext hop.url = false ∧ i < maxHops ∧
+          body step ext get maxHops i st =
+            (st.push hop (if 3 ≤ i + 1 then some Err.atLeastOneHop else none), true)))) := by
   obtain ⟨pre, s0, hlast⟩ := inv.last
   have herr1 : (if i > 1 then some Err.atLeastOneHop else st.error) =
       (if 3 ≤ i + 1 then some Err.atLeastOneHop else none) := by
@@ -144,53 +144,201 @@ theorem body_cases {i : Nat} {st : State U M} (inv : Inv step get i st) (h1 : 1 
   cases hs : step st.url st.method with
   | reqErr =>
     left
-    refine ⟨by simp [r, body, hs], pre, _, hlast, Or.inr (Or.inl hs)⟩
+    exact ⟨by simp [body, hs], pre, _, hlast, Or.inr (Or.inl hs)⟩
   | resp status loc =>
     cases hred : isRedirect status with
     | false =>
       left
-      refine ⟨by simp [r, body, hs, hred], pre, _, hlast, Or.inr (Or.inr ⟨status, loc, hs, Or.inl hred⟩)⟩
+      exact ⟨by simp [body, hs, hred], pre, _, hlast, Or.inr (Or.inr ⟨status, loc, hs, Or.inl hred⟩)⟩
     | true =>
       cases loc with
       | none =>
         left
-        refine ⟨by simp [r, body, hs, hred], pre, _, hlast, Or.inr (Or.inr ⟨status, none, hs, Or.inr rfl⟩)⟩
+        exact ⟨by simp [body, hs, hred], pre, _, hlast, Or.inr (Or.inr ⟨status, none, hs, Or.inr rfl⟩)⟩
       | some newUrl =>
         right
-        let method := if rewritesToGet status then get else st.method
-        refine ⟨⟨newUrl, status, method⟩, ⟨hs, hred, rfl⟩, ?_⟩
-        cases hany : st.hops.any (sameKey newUrl method) with
+        refine ⟨⟨newUrl, status, if rewritesToGet status then get else st.method⟩, ⟨hs, hred, rfl⟩, ?_⟩
+        cases hany : st.hops.any (sameKey newUrl (if rewritesToGet status then get else st.method)) with
         | true =>
-          have hmem := (any_sameKey_iff newUrl method st.hops).1 hany
-          have hr : r = ({ url := newUrl, method := method, hops := st.hops ++ [⟨newUrl, status, method⟩],
-              error := some Err.loop }, false) := by
-            simp [r, body, hs, hred, method, hany]
-          rw [hr]
-          exact ⟨rfl, rfl, rfl, Or.inl ⟨hmem, rfl, rfl⟩⟩
+          have hmem := (any_sameKey_iff _ _ st.hops).1 hany
+          exact Or.inl ⟨hmem, by simp [body, hs, hred, hany]⟩
         | false =>
-          have hnm : (newUrl, method) ∉ keys st.hops := by
+          have hnm : (newUrl, if rewritesToGet status then get else st.method) ∉ keys st.hops := by
             intro h
-            have := (any_sameKey_iff newUrl method st.hops).2 h
+            have := (any_sameKey_iff _ _ st.hops).2 h
             rw [hany] at this
             exact Bool.noConfusion this
           cases hext : ext newUrl with
           | true =>
-            have hr : r = ({ url := newUrl, method := method, hops := st.hops ++ [⟨newUrl, status, method⟩],
-                error := if i > 1 then some Err.atLeastOneHop else st.error }, false) := by
-              simp [r, body, hs, hred, method, hany, hext]
-            rw [hr]
-            exact ⟨rfl, rfl, rfl, Or.inr (Or.inl ⟨hnm, hext, rfl, herr1⟩)⟩
+            exact Or.inr (Or.inl ⟨hnm, hext, by simp [body, hs, hred, hany, hext, herr1]⟩)
           | false =>
             by_cases hge : i ≥ maxHops
-            · have hr : r = ({ url := newUrl, method := method, hops := st.hops ++ [⟨newUrl, status, method⟩],
-                  error := some Err.tooManyHops }, false) := by
-                simp [r, body, hs, hred, method, hany, hext, hge]
-              rw [hr]
-              exact ⟨rfl, rfl, rfl, Or.inr (Or.inr (Or.inl ⟨hnm, hext, hge, rfl, rfl⟩))⟩
-            · have hr : r = ({ url := newUrl, method := method, hops := st.hops ++ [⟨newUrl, status, method⟩],
-                  error := if i > 1 then some Err.atLeastOneHop else st.error }, true) := by
-                simp [r, body, hs, hred, method, hany, hext, hge]
-              rw [hr]
-              exact ⟨rfl, rfl, rfl, Or.inr (Or.inr (Or.inr ⟨hnm, hext, by omega, rfl, herr1⟩))⟩
+            · exact Or.inr (Or.inr (Or.inl ⟨hnm, hext, hge, by simp [body, hs, hred, hany, hext, hge]⟩))
+            · exact Or.inr (Or.inr (Or.inr ⟨hnm, hext, by omega,
+                by simp [body, hs, hred, hany, hext, hge, herr1]⟩))
+
+/-- The invariant is re-established by a turn that pushes a fresh hop and goes on. -/
+theorem inv_push {i : Nat} {st : State U M} (inv : Inv step get i st) (hop : Hop U M)
+    (hl : Link step get ⟨st.url, 0, st.method⟩ hop) (hnm : (hop.url, hop.method) ∉ keys st.hops) :
+    Inv step get (i + 1) (st.push hop (if 3 ≤ i + 1 then some Err.atLeastOneHop else none)) := by
+  obtain ⟨pre, s0, hlast⟩ := inv.last
+  refine ⟨by simp [State.push, inv.len], ⟨st.hops, hop.status, rfl⟩, ?_, rfl, ?_⟩
+  · simp only [State.push, keys_append]
+    rw [List.nodup_append]
+    refine ⟨inv.nodup, by simp [keys], ?_⟩
+    intro a ha b hb
+    simp only [keys, List.map_cons, List.map_nil, List.mem_singleton] at hb
+    subst hb
+    intro h; subst h; exact hnm ha
+  · simp only [State.push]
+    rw [hlast]
+    apply chained_snoc
+    · rw [← hlast]; exact inv.chain
+    · exact hl
+
+theorem chained_push {i : Nat} {st : State U M} (inv : Inv step get i st) (hop : Hop U M)
+    (hl : Link step get ⟨st.url, 0, st.method⟩ hop) : Chained step get (st.hops ++ [hop]) := by
+  obtain ⟨pre, s0, hlast⟩ := inv.last
+  rw [hlast]
+  apply chained_snoc
+  · rw [← hlast]; exact inv.chain
+  · exact hl
+
+theorem nodup_push {i : Nat} {st : State U M} (inv : Inv step get i st) (hop : Hop U M)
+    (hnm : (hop.url, hop.method) ∉ keys st.hops) : (keys (st.hops ++ [hop])).Nodup := by
+  rw [keys_append, List.nodup_append]
+  refine ⟨inv.nodup, by simp [keys], ?_⟩
+  intro a ha b hb
+  simp only [keys, List.map_cons, List.map_nil, List.mem_singleton] at hb
+  subst hb
+  intro h; subst h; exact hnm ha
+
+theorem snoc_inj {α : Type} {a b : List α} {x y : α} (h : a ++ [x] = b ++ [y]) : a = b ∧ x = y := by
+  have := List.append_inj' h rfl
+  exact ⟨this.1, by simpa using this.2⟩
+
+theorem post_loop {i : Nat} {st : State U M} (h1 : 1 ≤ i) (hi : i ≤ maxHops) (inv : Inv step get i st)
+    (hop : Hop U M) (hl : Link step get ⟨st.url, 0, st.method⟩ hop)
+    (hm : (hop.url, hop.method) ∈ keys st.hops) :
+    Post step ext get maxHops (st.push hop (some Err.loop)) := by
+  have hlen : (st.push hop (some Err.loop)).hops.length = i + 1 := by simp [State.push, inv.len]
+  refine ⟨by omega, by omega, chained_push step get inv hop hl, ?_, ?_, ?_, ?_⟩
+  · simpa [State.push] using inv.nodup
+  · exact ⟨fun _ => ⟨st.hops, hop, rfl, hm⟩, fun _ => rfl⟩
+  · constructor
+    · intro h; simp [State.push] at h
+    · rintro ⟨_, _, hnd, _⟩
+      exact absurd ⟨st.hops, hop, rfl, hm⟩ (not_lastRepeats_of_nodup hnd)
+  · intro h; exact absurd rfl h
+
+theorem post_ext {i : Nat} {st : State U M} (h1 : 1 ≤ i) (hi : i ≤ maxHops) (inv : Inv step get i st)
+    (hop : Hop U M) (hl : Link step get ⟨st.url, 0, st.method⟩ hop)
+    (hnm : (hop.url, hop.method) ∉ keys st.hops) (he : ext hop.url = true) :
+    Post step ext get maxHops (st.push hop (if 3 ≤ i + 1 then some Err.atLeastOneHop else none)) := by
+  have hlen : (st.push hop (if 3 ≤ i + 1 then some Err.atLeastOneHop else none)).hops.length = i + 1 := by
+    simp [State.push, inv.len]
+  have hnd := nodup_push step get inv hop hnm
+  have hne : st.hops ≠ [] := by
+    intro h; have := inv.len; rw [h] at this; simp at this; omega
+  refine ⟨by omega, by omega, chained_push step get inv hop hl, ?_, ?_, ?_, ?_⟩
+  · simpa [State.push] using inv.nodup
+  · constructor
+    · intro h; simp only [State.push] at h; split at h <;> simp at h
+    · intro h; exact absurd h (not_lastRepeats_of_nodup hnd)
+  · constructor
+    · intro h; simp only [State.push] at h; split at h <;> simp at h
+    · rintro ⟨_, _, _, pre, l, hpl, hel⟩
+      have := snoc_inj hpl
+      rw [← this.2, he] at hel
+      exact Bool.noConfusion hel
+  · intro _ _
+    rw [hlen]
+    exact ⟨rfl, fun _ => ⟨st.hops, hop, rfl, Or.inl ⟨hne, he⟩⟩⟩
+
+theorem post_too_many {i : Nat} {st : State U M} (h1 : 1 ≤ i) (hi : i = maxHops) (inv : Inv step get i st)
+    (hop : Hop U M) (hl : Link step get ⟨st.url, 0, st.method⟩ hop)
+    (hnm : (hop.url, hop.method) ∉ keys st.hops) (he : ext hop.url = false) :
+    Post step ext get maxHops (st.push hop (some Err.tooManyHops)) := by
+  have hlen : (st.push hop (some Err.tooManyHops)).hops.length = i + 1 := by simp [State.push, inv.len]
+  have hnd := nodup_push step get inv hop hnm
+  refine ⟨by omega, by omega, chained_push step get inv hop hl, ?_, ?_, ?_, ?_⟩
+  · simpa [State.push] using inv.nodup
+  · constructor
+    · intro h; simp [State.push] at h
+    · intro h; exact absurd h (not_lastRepeats_of_nodup hnd)
+  · exact ⟨fun _ => ⟨by omega, by omega, hnd, st.hops, hop, rfl, he⟩, fun _ => rfl⟩
+  · intro _ h; exact absurd rfl h
+
+/-- Post-condition of the rest of the loop from any state satisfying the invariant, as long as at
+least one value of `i` is left (`i ≤ max_hops`). -/
+theorem run_post : ∀ (n i : Nat) (st : State U M), i + n = maxHops → 1 ≤ i → Inv step get i st →
+    Post step ext get maxHops (run step ext get maxHops i (n + 1) st) := by
+  intro n
+  induction n with
+  | zero =>
+    intro i st hin h1 inv
+    have him : i = maxHops := by omega
+    simp only [run]
+    rcases body_cases step ext get maxHops inv with ⟨hb, hstuck⟩ | ⟨hop, hl, hc⟩
+    · rw [hb]; exact post_of_inv step ext get maxHops h1 (by omega) inv hstuck
+    · rcases hc with ⟨hm, hb⟩ | ⟨hnm, he, hb⟩ | ⟨hnm, he, hge, hb⟩ | ⟨_, _, hlt, _⟩
+      · rw [hb]; exact post_loop step ext get maxHops h1 (by omega) inv hop hl hm
+      · rw [hb]; exact post_ext step ext get maxHops h1 (by omega) inv hop hl hnm he
+      · rw [hb]; exact post_too_many step ext get maxHops h1 him inv hop hl hnm he
+      · omega
+  | succ n ih =>
+    intro i st hin h1 inv
+    simp only [run]
+    rcases body_cases step ext get maxHops inv with ⟨hb, hstuck⟩ | ⟨hop, hl, hc⟩
+    · rw [hb]; exact post_of_inv step ext get maxHops h1 (by omega) inv hstuck
+    · rcases hc with ⟨hm, hb⟩ | ⟨hnm, he, hb⟩ | ⟨hnm, he, hge, hb⟩ | ⟨hnm, he, hlt, hb⟩
+      · rw [hb]; exact post_loop step ext get maxHops h1 (by omega) inv hop hl hm
+      · rw [hb]; exact post_ext step ext get maxHops h1 (by omega) inv hop hl hnm he
+      · omega
+      · rw [hb]
+        exact ih (i + 1) _ (by omega) (by omega) (inv_push step get inv hop hl hnm)
+
+theorem init_inv (url : U) (method : M) : Inv step get 1 (init url method) :=
+  ⟨rfl, ⟨[], 0, rfl⟩, by simp [init, keys], rfl, trivial⟩
+
+/-- The post-condition of `compute`, for every `step`, `ext`, `get`, `max_hops`, start. -/
+theorem compute_post (url : U) (method : M) :
+    Post step ext get maxHops (compute step ext get maxHops url method) := by
+  unfold compute
+  cases hm : maxHops with
+  | zero =>
+    simp only [run]
+    refine ⟨by simp [init], by simp [init], trivial, by simp [init, keys], ?_, ?_, ?_⟩
+    · constructor
+      · intro h; simp [init] at h
+      · intro h; exact absurd h (not_lastRepeats_of_nodup (by simp [init, keys]))
+    · constructor
+      · intro h; simp [init] at h
+      · rintro ⟨h, _⟩; omega
+    · intro _ _
+      refine ⟨by simp [init], ?_⟩
+      intro h; simp [init] at h
+  | succ k =>
+    have := run_post step ext get (k + 1) k 1 (init url method) (by omega) (by omega)
+      (init_inv step get url method)
+    exact this
+
+/-- `runCount` computes the same state as `run`, and evaluates `step` at most once per value of `i`. -/
+theorem runCount_spec : ∀ (n i : Nat) (st : State U M) (c : Nat),
+    (runCount step ext get maxHops i n st c).1 = run step ext get maxHops i n st ∧
+    (runCount step ext get maxHops i n st c).2 ≤ c + n := by
+  intro n
+  induction n with
+  | zero => intro i st c; simp [runCount, run]
+  | succ n ih =>
+    intro i st c
+    simp only [runCount, run]
+    cases hb : body step ext get maxHops i st with
+    | mk st' b =>
+      cases b with
+      | true =>
+        have := ih (i + 1) st' (c + 1)
+        exact ⟨this.1, by omega⟩
+      | false => exact ⟨rfl, by simp only; omega⟩
 
 end Rio.Loop
